@@ -20,7 +20,8 @@ Fixpoint no_101_after_return_b (h : list obs) : bool :=
   | _ :: r => no_101_after_return_b r
   end.
 
-(* 11: when close returned, no client handler goroutine was alive *)
+(* 11: when close returned — and at any later census — no client handler goroutine was alive, and no request
+       that was still inside handleWatch at that moment became a client afterwards *)
 Definition no_handlers_at_return_b (h : list obs) : bool :=
   forallb (fun o => match o with OCloseReturn n => n =? 0 | _ => true end) h.
 
